@@ -198,17 +198,19 @@ type runCfg struct {
 	NoStdlib   bool   `json:"nostdlib"`
 	NoCount    bool   `json:"nocount"`     // do not install a context: steps are then not counted unless maxsteps > 0
 	NoCtxFirst int    `json:"noctx_first"` // the first k evaluations of a history use the context-less entry point (LoadString)
+	CtxFirst   int    `json:"ctx_first"`   // only the first k evaluations carry the context; it is cancelled once evaluation k has returned
 }
 
 // pollCtx is a context whose Err() becomes non-nil at exactly the k-th poll.
 type pollCtx struct {
 	context.Context
 	n, at int64
+	dead  bool
 }
 
 func (c *pollCtx) Err() error {
 	c.n++
-	if c.at > 0 && c.n >= c.at {
+	if c.dead || (c.at > 0 && c.n >= c.at) {
 		return context.Canceled
 	}
 	return nil
@@ -246,6 +248,7 @@ type session struct {
 	probes            []J
 	prof              *countingProfiler
 	nload, noCtxFirst int
+	ctxFirst          int
 	stdPkgs           map[string]bool    // packages that existed before the test program ran (standard library)
 	langNames         map[string]bool    // names bound in the language package when the session started
 	errIdx            map[*lisp.LVal]int // identity of error objects seen in this evaluation (capture builtin, final value)
@@ -291,7 +294,7 @@ func frameView(fs []lisp.CallFrame) []interface{} {
 }
 
 func newSession(cfg runCfg) (*session, error) {
-	s := &session{stderr: &strings.Builder{}, noCtxFirst: cfg.NoCtxFirst}
+	s := &session{stderr: &strings.Builder{}, noCtxFirst: cfg.NoCtxFirst, ctxFirst: cfg.CtxFirst}
 	env := lisp.NewEnv(nil)
 	env.Runtime.Reader = parser.NewReader()
 	env.Runtime.Stderr = s.stderr
@@ -417,10 +420,24 @@ func (s *session) probe(env *lisp.LEnv, args *lisp.LVal) *lisp.LVal {
 // load evaluates one source text as one top-level evaluation.
 func (s *session) load(name, src string) *lisp.LVal {
 	s.nload++
-	if s.ctx != nil && s.nload > s.noCtxFirst {
-		return s.env.LoadContext(s.ctx, name, strings.NewReader(src))
+	if s.withCtx() {
+		v := s.env.LoadContext(s.ctx, name, strings.NewReader(src))
+		s.retire()
+		return v
 	}
 	return s.env.LoadString(name, src)
+}
+
+// withCtx: does the evaluation that has just been counted carry the context?
+func (s *session) withCtx() bool {
+	return s.ctx != nil && s.nload > s.noCtxFirst && (s.ctxFirst == 0 || s.nload <= s.ctxFirst)
+}
+
+// retire cancels the context once the last evaluation that carries it has returned.
+func (s *session) retire() {
+	if s.ctxFirst > 0 && s.nload >= s.ctxFirst && s.ctx != nil {
+		s.ctx.dead = true
+	}
 }
 
 // restState is what must be clean between top-level evaluations (C05).
